@@ -152,6 +152,44 @@ Theorem C14_end_sign : forall s evs x, ends x = true -> rn_final s (evs ++ [ev_o
 Proof. exact end_sign_leaves_transferring. Qed.
 Print Assumptions C14_end_sign.
 
+(* ---- recovery includes the tunnelConnected flag --------------------------------------- *)
+
+(* The automaton with the relay's tunnelConnected flag (set by the handshake from the ACT,
+   cleared by resetToStandby, consulted when main-channel data is to be parked) and with the
+   tunnel's own read loops.  For every history of transfers in any order - over a tunnel or
+   not, refused, failed, interrupted, ended on either channel - the relay is in standby with
+   the flag FALSE afterwards, the next trigger is detected, and the ACT of the handshake it
+   starts is parked (so it is read and narrowed by the relay, not passed to the server). *)
+Theorem C14_recovers_tunnel_flag : forall h trig act, Forall wf_ttransfer h ->
+  rt_final (NStandby, false) (thistory_events h) = (NStandby, false) /\
+  rt_step (NStandby, false) (TMain (NOut trig true)) = ((NHandshaking, false), FRewritten) /\
+  rt_step (NHandshaking, false) (TMain (NIn act)) = ((NHandshaking, false), FParked).
+Proof. exact recovers_tunnel_flag_and_parks. Qed.
+Print Assumptions C14_recovers_tunnel_flag.
+
+(* not only after well-formed histories: after ANY sequence of events, if the relay is in
+   standby the flag is false, so the next handshake parks the client's ACT *)
+Theorem C14_standby_flag_false : forall evs trig act,
+  fst (rt_final (NStandby, false) evs) = NStandby ->
+  rt_final (NStandby, false) (evs ++ [TMain (NOut trig true)]) = (NHandshaking, false) /\
+  rt_step (rt_final (NStandby, false) (evs ++ [TMain (NOut trig true)])) (TMain (NIn act))
+    = ((NHandshaking, false), FParked).
+Proof. exact standby_then_parks. Qed.
+Print Assumptions C14_standby_flag_false.
+
+(* with a false flag and main-channel events only, this automaton is the one of C14_recovers *)
+Theorem C14_flag_automaton_refines : forall s ev,
+  rt_step (s, false) (TMain ev) = (let '(s', f) := rn_step s ev in ((s', false), f)).
+Proof. exact rt_refines_rn. Qed.
+Print Assumptions C14_flag_automaton_refines.
+
+(* the three source facts about the flag, regenerated from relay.go on every run *)
+Theorem C14_tunnel_flag_pins :
+  relayneg_reset_clears_tunnel_flag = true /\ relayneg_handshake_sets_tunnel_flag = true /\
+  length relayneg_parking_rule_src = 94%nat.
+Proof. exact (conj reset_clears_src_ok (conj handshake_sets_src_ok (f_equal (@length _) parking_rule_src_ok))). Qed.
+Print Assumptions C14_tunnel_flag_pins.
+
 (* ---- the defect: the end sign is looked for chunk by chunk ------------------------------ *)
 
 (* what the property wants: whatever the chunking of the client's stream *)
@@ -211,5 +249,21 @@ Example C14_nonvacuous_history :
   Forall wf_transfer h /\ rn_final NStandby (history_events h) = NStandby.
 Proof.
   cbn zeta. split; [| vm_compute; reflexivity].
+  repeat constructor; intro H; vm_compute; split; reflexivity.
+Qed.
+
+(* a history meeting the hypotheses of C14_recovers_tunnel_flag: a transfer over the tunnel
+   (ACT, CFG and EXIT on the tunnel connections), then a plain one, then a client that claims a
+   tunnel and declines *)
+Example C14_nonvacuous_tunnel_history :
+  let h := [ mkTTransfer split_trigger [KTunIn [35;65;67;84;58;10]] (Some true) [KTunOut [35;67;70;71;58;10]] true
+                         [KTunIn [35;78;85;77;58;49;10]] (KTunIn [35;69;88;73;84;58;65;10]);
+             mkTTransfer split_trigger [KIn [35;65;67;84;58;10]] (Some false) [KOut [35;67;70;71;58;10] false] true
+                         [] (KIn [35;69;88;73;84;58;65;10]);
+             mkTTransfer split_trigger [KIn [35;65;67;84;58;10]] (Some true) [] false [] (KIn [3]) ] in
+  Forall wf_ttransfer h /\ rt_final (NStandby, false) (thistory_events h) = (NStandby, false) /\
+  snd (rt_final (NStandby, false) (firstn 5 (thistory_events h))) = true.
+Proof.
+  cbn zeta. split; [| split; vm_compute; reflexivity].
   repeat constructor; intro H; vm_compute; split; reflexivity.
 Qed.
